@@ -15,7 +15,7 @@ use vmc::report::{Ctx, Report, Stats};
 use vmc::{fnv, json, Json};
 
 const IGNORE: [&str; 5] = ["unset", "false", "true", "true-then-false", "false-then-true"];
-const ROOTS: [&str; 6] = ["none", "correct-pem", "correct-der", "unrelated-pem", "correct-der-ending-in-whitespace", "correct-pem-crlf"];
+const ROOTS: [&str; 7] = ["none", "correct-pem", "correct-der", "unrelated-pem", "correct-der-ending-in-whitespace", "correct-pem-crlf", "correct-pem-with-utf8-explanatory-text"];
 const PROTOS: [&str; 3] = ["any", "tls1.2", "tls1.3"];
 
 #[derive(Clone, Copy, Debug)]
@@ -52,7 +52,7 @@ impl Cell {
         // the certificate matches the name in the target: `valid` carries DNS:localhost, kind 5 carries IP:127.0.0.1
         let matches_host = (self.cert == 0 && self.host == 0) || (self.cert == 5 && self.host == 1);
         // the caller's LAST word counts: true-then-false verifies, false-then-true ignores
-        matches!(self.ignore, 2 | 4) || (matches!(self.root, 1 | 2 | 4 | 5) && matches_host)
+        matches!(self.ignore, 2 | 4) || (matches!(self.root, 1 | 2 | 4 | 5 | 6) && matches_host)
     }
 }
 
@@ -153,6 +153,13 @@ fn run_cell(c: &Cell, pki: &Pki, rt: &tokio::runtime::Runtime, st: &mut Stats) {
         2 => cfg.ca_certs.push(pki.ca.cert.to_der().unwrap()),
         3 => cfg.ca_certs.push(pki.unrelated_ca.cert.to_pem().unwrap()),
         4 => cfg.ca_certs.push(pki.ca_der_ws.clone()),
+        6 => {
+            // RFC 7468 section 2: text outside the encapsulation boundaries is permitted (and real files carry it)
+            let mut v = "Wurzelzertifikat f\u{fc}r den Drucker \u{2713}\nsubject=O = vmc verification harness\n".as_bytes().to_vec();
+            v.extend_from_slice(&pki.ca.cert.to_pem().unwrap());
+            v.extend_from_slice("\n# Ende \u{2014} fin\n".as_bytes());
+            cfg.ca_certs.push(v)
+        }
         5 => cfg.ca_certs.push(String::from_utf8(pki.ca.cert.to_pem().unwrap()).unwrap().replace('\n', "\r\n").into_bytes()),
         _ => {}
     }
@@ -326,7 +333,7 @@ pub fn run(ctx: &Ctx) -> ! {
     let mut rep = Report::new(
         ctx,
         "exploration",
-        "the complete matrix {blocking, async} x {native-tls, rustls} (two builds) x ignore flag {unset, false, true, true-then-false, false-then-true on one builder} x extra root {none, correct CA as PEM, as DER, unrelated CA, correct CA as a DER encoding whose last octet is ASCII white space (same anchor re-signed until it is), correct CA as PEM with CRLF line ends} x server certificate {valid for localhost, wrong host name, expired, self-signed, issued by an unknown CA} (target names `localhost`) + {certificate for IP 127.0.0.1 with target localhost, the same with target 127.0.0.1, certificate for localhost with target 127.0.0.1} = 960 configurations (thorough: x {TLS 1.2, TLS 1.3} forced on the peer = 1920), each a real handshake of a real Get-Printer-Attributes request against the loopback TLS peer (openssl acceptor, certificates minted at run time). plus, per backend, every ORDERED pair of an 8-configuration subset per client (128 pairs), each pair run sequentially in a fresh process (history: process-wide state left by the first client must not change the second's verdict). Oracle: accepted <=> the last ignore_tls_errors call said true or (root is the correct CA in any of its four encodings and certificate valid); on rejection send() = Err AND zero application bytes reached the peer. distinct = configuration",
+        "the complete matrix {blocking, async} x {native-tls, rustls} (two builds) x ignore flag {unset, false, true, true-then-false, false-then-true on one builder} x extra root {none, correct CA as PEM, as DER, unrelated CA, correct CA as a DER encoding whose last octet is ASCII white space (same anchor re-signed until it is), correct CA as PEM with CRLF line ends, correct CA as PEM with UTF-8 explanatory text before and after the armour} x server certificate {valid for localhost, wrong host name, expired, self-signed, issued by an unknown CA} (target names `localhost`) + {certificate for IP 127.0.0.1 with target localhost, the same with target 127.0.0.1, certificate for localhost with target 127.0.0.1} = 1120 configurations (thorough: x {TLS 1.2, TLS 1.3} forced on the peer = 2240), each a real handshake of a real Get-Printer-Attributes request against the loopback TLS peer (openssl acceptor, certificates minted at run time). plus, per backend, every ORDERED pair of an 8-configuration subset per client (128 pairs), each pair run sequentially in a fresh process (history: process-wide state left by the first client must not change the second's verdict). Oracle: accepted <=> the last ignore_tls_errors call said true or (root is the correct CA in any of its five encodings and certificate valid); on rejection send() = Err AND zero application bytes reached the peer. distinct = configuration",
     );
     rep.assume("localhost resolves to 127.0.0.1; the test CA is never in the system trust store");
     if let Some(p) = &ctx.replay {
